@@ -756,7 +756,54 @@ def _input_fields(ctx, crate, ty):
     return out
 
 
+def r14_an_explicit_call_is_recorded(ctx, rid='C19.R14', lead=''):
+    ctx.rule(rid, lead + 'P3 value audit of the blueprint setters: every `Registered*` method of pavex::blueprint that sets an optional property of the '
+             'component it registered (`required()`, `default_if_missing()`, `include_if_unused()`, `never_clone()`, `cloning(..)`, `lifecycle(..)`, '
+             'lints ..) stores `Some(..)`. In the persisted blueprint `None` means "the user said nothing here, use the annotation": a setter that '
+             'writes `None` "because that is the default anyway" turns an explicit override into no override — `bp.config(X).required()` on a type '
+             'annotated `default_if_missing` still gets `#[serde(default)]`, and a key missing from all three sources loads as `X::default()` '
+             'instead of failing.')
+    n = 0
+    for b in ctx.fb.bodies('pavex'):
+        if b.is_promoted or b.nid != b.nroot or '::blueprint::' not in b.nid or '::Registered' not in b.nid:
+            continue
+        if b.raw['argc'] < 1 or b.locals[0] != b.locals[1]:
+            continue      # a builder method: takes `self`, returns `Self`
+        defs = Defs(b)
+        for bb, j, st in b.all_assigns():
+            lhs = st['lhs']
+            fs = [e for e in lhs.get('p', []) if e.startswith('f:')]
+            if not fs or not (st.get('lty') or '').startswith('core::option::Option<'):
+                continue
+            n += 1
+            rv = st['rv']
+            src = None
+            if rv['k'] == 'agg' and strip_generics(rv.get('adt', '')) == 'core::option::Option':
+                src = rv['var']
+            elif rv['k'] == 'use' and op_place(rv['op']) is not None:
+                sl, _ = backward_slice(b, op_place(rv['op'])['l'], defs, through_calls=False)
+                vs = {n2['rv']['var'] for _, _, n2 in sl if 'rv' in n2 and n2['rv']['k'] == 'agg' and strip_generics(n2['rv'].get('adt', '')) == 'core::option::Option'}
+                src = 'None' if vs == {'None'} else ('Some' if vs else '?')
+            ctx.ob(rid, 'recorded-as-some|%s|%s' % (b.nid.replace('pavex::blueprint::', ''), fs[-1][2:]), src != 'None', b.loc(bb, st),
+                   '%s writes %s into `%s`' % (b.nid.split('::')[-1], src or 'a computed value', fs[-1][2:]))
+    ctx.floor(rid, 'optional properties written by the Registered* setters', n, 8)
+
+
+def r15_method_set_reaches_the_compiler_as_written(ctx):
+    ctx.rule('C19.R15', 'shared with C07.R10: the set of methods written in a route attribute reaches the compiler unchanged — `MethodGuard::Any` is produced only when '
+             'the attribute asks for it (`allow(any_method, non_standard_methods)`), never as a "normalisation" of a list that happens to contain the nine '
+             'standard methods.')
+    from .c07 import r10_any_guard_only_on_request
+    from ..engine import Ctx
+    side = Ctx(ctx.prop, ctx.fb, ctx.tier)
+    r10_any_guard_only_on_request(side)
+    for ob in side.obs:
+        ctx.ob('C19.R15', ob.key, ob.ok, ob.loc, ob.detail, ob.nontrivial)
+
+
 def check(ctx):
+    r15_method_set_reaches_the_compiler_as_written(ctx)
+    r14_an_explicit_call_is_recorded(ctx)
     r13_reader_hands_on_what_it_parsed(ctx)
     r12_every_attribute_is_offered_to_the_parser(ctx)
     r11_strings_recorded_as_given(ctx)
